@@ -780,12 +780,14 @@ def torch_function_of_numeric_constant(case):
 
     def effectively_constant(a):
         return _is_constant_expr(a) or (E.variables(a) and set(E.variables(a)) <= const_alg)
+    # (calls of sympy's own functions on numeric literals - sympy writes E*E as exp(2) - are folded to numbers since the
+    # fix of F-02c2; what is left are functions sympy does not know and arguments that are constant algebraic variables)
+    non_sympy = {"sigmoid", "absv", "maxi", "mini", "round"}
     for ast in _all_asts(case):
-        if _uses_const(ast, "E"):
-            return True
         for n in _walk(ast):
             if n[0] == "call" and all(effectively_constant(a) for a in n[2:]):
-                return True
+                if n[1] in non_sympy or any(E.variables(a) for a in n[2:]):
+                    return True
     return False
 
 
